@@ -424,6 +424,7 @@ class World:
 
     def ev_rclose(self, k: str, i: int) -> None:
         buf = self.readers[k].pop(i)
+        was_fresh = self.fresh(buf)
         try:
             data = bytes(buf.view())
             if data != self.pattern(k):
@@ -433,7 +434,12 @@ class World:
         except ValueError:
             self.last_answer = "rclose-error"
         if not self.readers[k] and k in self.ref_delayed:
-            self._ref_remove(k)
+            if was_fresh or k not in self.mgr.datasets:
+                self._ref_remove(k)
+            else:
+                # the closing reader was older than the staleness window: the store may have paged the dataset out under
+                # it, and what a delayed purge means then is not defined by the statement -- the reference follows the store
+                self.ref_delayed.discard(k)
 
     def ev_purge(self, k: str) -> None:
         try:
